@@ -20,6 +20,7 @@ package c07
 
 import (
 	"fmt"
+	"os"
 	"math/rand"
 	"runtime"
 	"sort"
@@ -31,13 +32,14 @@ import (
 	"github.com/anishathalye/porcupine"
 	"github.com/btcsuite/btcd/chainhash/v2"
 	"github.com/btcsuite/btcd/wire/v2"
+	"github.com/lightninglabs/neutrino/headerfs"
 )
 
 // ConcIndexBase separates the index space of concurrent histories.
 const ConcIndexBase = 2_000_000
 
 // FixedConc is the number of seed-independent concurrent histories.
-const FixedConc = 2
+const FixedConc = 3
 
 type bver struct {
 	w    int // state index at which this entry was written
@@ -337,14 +339,14 @@ func doRead(st *Stores, in concIn) (out string) {
 	return "harness: unknown read"
 }
 
-// concHistory builds the writer's operation list. Fixed histories 0 and 1 are
-// seed independent: (0) a chain of 40, then ten rounds of "roll back 6, append
+// concHistory builds the writer's operation list. Fixed histories 0, 1 and 2 are
+// seed independent (2 = 0 again, run with paused range reads): (0) a chain of 40, then ten rounds of "roll back 6, append
 // 6 others, append filters", (1) batches of 2500 headers with bulk rollbacks.
 func concHistory(seed int64, idx int, e *Env) *History {
 	if idx < FixedConc {
-		g := &gen{rng: rand.New(rand.NewSource(int64(4242 + idx))), m: NewModel(e.Genesis, e.GenesisFilter), maxBatch: 8}
+		g := &gen{rng: rand.New(rand.NewSource(int64(4242 + idx%2))), m: NewModel(e.Genesis, e.GenesisFilter), maxBatch: 8}
 		h := &History{Index: idx, Seed: int64(4242 + idx), Class: "fixed-reorg-rounds"}
-		if idx == 0 {
+		if idx == 0 || idx == 2 { // 2 = the same history with paused range reads (idx%4 == 2)
 			g.appendBlocks(g.newBlocks(40), "new")
 			g.appendFilters(30)
 			for r := 0; r < 10; r++ {
@@ -471,7 +473,30 @@ func (r *Runner) RunConcurrent(seed int64, idx int, readers int) (ok bool, summa
 		defer runtime.GOMAXPROCS(old)
 	}
 
+	// Paused range reads: every fourth history (and fixed history 0 in a second
+	// pass, index FixedConc) has ONE reader, whose ancestor-range reads are held
+	// inside the file read until the writer has moved on.
+	paused := idx%4 == 2
+	var armed atomic.Bool
+	var pauses, crossed atomic.Int64
+	if paused {
+		readers = 1
+		wrap := func(f headerfs.File) headerfs.File {
+			return &pauseFile{File: f, armed: &armed, writing: &writing, pauses: &pauses, crossed: &crossed}
+		}
+		if err := headerfs.VerifWrapFile(s.st.BS, wrap); err != nil {
+			r.Sink.Inconclusive("harness: cannot wrap the block header file: " + err.Error())
+			return false, nil
+		}
+		if err := headerfs.VerifWrapFile(s.st.FS, wrap); err != nil {
+			r.Sink.Inconclusive("harness: cannot wrap the filter header file: " + err.Error())
+			return false, nil
+		}
+	}
 	maxReads := 700
+	if paused {
+		maxReads = 400
+	}
 	if len(pool) > 3000 {
 		maxReads = 150 // ancestors / locators over thousands of headers are slow to render
 	}
@@ -504,7 +529,14 @@ func (r *Runner) RunConcurrent(seed int64, idx int, readers int) (ok bool, summa
 					}
 					return b.hash
 				}
-				switch p := rr.Intn(100); {
+				p := rr.Intn(100)
+				if paused && rr.Intn(2) == 0 {
+					p = 52 + rr.Intn(14) // block ancestors
+					if rr.Intn(3) == 0 {
+						p = 95 // filter ancestors
+					}
+				}
+				switch {
 				case p < 12:
 					in.Kind = rBTip
 				case p < 24:
@@ -528,6 +560,17 @@ func (r *Runner) RunConcurrent(seed int64, idx int, readers int) (ok bool, summa
 				default:
 					in.Kind, in.Hash = rFAnc, recent()
 				}
+				if paused && (in.Kind == rBAnc || in.Kind == rFAnc) {
+					// The blocks a reorganisation is about to replace: the tip
+					// and the three below it, as the list stands right now.
+					k := min(int(writing.Load()/2), len(vm.btip)-1)
+					if t := vm.btip[k]; t >= 1 {
+						h := t - uint32(rr.Intn(int(min(t, 4))))
+						if b := vm.blockAt(h, k); b != nil {
+							in.Hash = b.hash
+						}
+					}
+				}
 				if in.Kind == rBAnc || in.Kind == rFAnc {
 					// Caller contract n <= height(stop): bound n by the lowest
 					// height the hash ever has.
@@ -540,9 +583,16 @@ func (r *Runner) RunConcurrent(seed int64, idx int, readers int) (ok bool, summa
 					}
 					in.N = uint32(rr.Intn(int(min(lo, 12)) + 1))
 				}
+				if paused && (in.Kind == rBAnc || in.Kind == rFAnc) && pauses.Load() < 60 {
+					armed.Store(true)
+				}
 				w0 := writing.Load()
 				call := clock.Add(1)
 				out := doRead(s.st, in)
+				armed.Store(false)
+				if os.Getenv("C07_CONC_DEBUG") != "" && (in.Kind == rBAnc || in.Kind == rFAnc) && writing.Load() >= w0+4 {
+					fmt.Fprintf(os.Stderr, "DBG %v w0=%d w1=%d -> %.80s\n", in, w0, writing.Load(), out)
+				}
 				ret := clock.Add(1)
 				w1 := writing.Load()
 				mine = append(mine, concEvent{client: c, in: in, out: out, call: call, ret: ret,
@@ -651,12 +701,18 @@ func (r *Runner) RunConcurrent(seed int64, idx int, readers int) (ok bool, summa
 	r.Stats.Add("conc_reads", int64(len(events)))
 	r.Stats.Add("conc_reads_overlapping_a_write", int64(nOverlap))
 	r.Stats.Add("conc_writes", int64(len(wEvents)))
+	if paused {
+		r.Stats.Add("conc_paused_histories", 1)
+		r.Stats.Add("conc_range_reads_paused_inside_file_read", pauses.Load())
+		r.Stats.Add("conc_range_reads_paused_across_two_writes", crossed.Load())
+	}
 	for k, n := range kinds {
 		r.Stats.Add("conc_overlapping/"+k, int64(n))
 	}
 	summary = map[string]any{"part": "concurrent", "history_index": idx, "class": h.Class, "writes": len(wEvents),
-		"reads": len(events), "reads_overlapping_a_write": nOverlap, "readers": readers, "verdict": string(res)}
-	r.Sink.Case(fmt.Sprintf("conc|%s|writes=%s|overlap=%s", h.Class, lenBucket2(len(wEvents)), overlapBucket(nOverlap)), nOverlap > 0)
+		"reads": len(events), "reads_overlapping_a_write": nOverlap, "readers": readers, "verdict": string(res),
+		"range_reads_paused": pauses.Load(), "paused_across_two_writes": crossed.Load()}
+	r.Sink.Case(fmt.Sprintf("conc|%s|writes=%s|overlap=%s|paused=%v", h.Class, lenBucket2(len(wEvents)), overlapBucket(nOverlap), paused), nOverlap > 0)
 	switch res {
 	case porcupine.Ok:
 		return true, summary
@@ -790,4 +846,34 @@ func deadlockShape(parked []string) string {
 	}
 	sort.Strings(ks)
 	return strings.Join(ks, " | ")
+}
+
+// pauseFile sits between a store and its flat file in the "paused range read"
+// histories. A reader that has armed it is held inside its next ReadAt (a
+// system call: a point at which the scheduler may suspend it anyway) until the
+// writer has completed four more operations or 40 ms have passed (the latter is
+// what happens when the reader holds the store's lock: the writer waits for
+// it). This places a rollback and a re-append between the two halves of a
+// range read (hash -> height in the index, then the range in the file) and
+// shows whether the store reads them as one.
+type pauseFile struct {
+	headerfs.File
+	armed   *atomic.Bool
+	writing *atomic.Int64
+	pauses  *atomic.Int64
+	crossed *atomic.Int64
+}
+
+func (f *pauseFile) ReadAt(p []byte, off int64) (int, error) {
+	if f.armed.CompareAndSwap(true, false) {
+		f.pauses.Add(1)
+		w0 := f.writing.Load()
+		for t0 := time.Now(); f.writing.Load() < w0+8 && time.Since(t0) < 40*time.Millisecond; {
+			time.Sleep(200 * time.Microsecond)
+		}
+		if f.writing.Load() >= w0+4 {
+			f.crossed.Add(1)
+		}
+	}
+	return f.File.ReadAt(p, off)
 }
